@@ -338,7 +338,9 @@ public:
             {
                 enumerators.push_back(
                     fmt::format(
-                        "    {} = '{}'", valid_value.name, valid_value.value));
+                        "    {} = '{}'",
+                        valid_value.name,
+                        utils::escape_literal(valid_value.value)));
             }
             else
             {
